@@ -14,6 +14,7 @@ import (
 	"google.golang.org/grpc"
 	"google.golang.org/grpc/codes"
 	"google.golang.org/grpc/metadata"
+	"google.golang.org/grpc/peer"
 	"google.golang.org/grpc/status"
 	"google.golang.org/protobuf/proto"
 
@@ -28,6 +29,30 @@ var deadlineAfter = 400 * time.Millisecond
 // after a few ops that hung for the full bound the hang is established: later waits are kept short so
 // that a broken tree is reported in minutes, not hours
 var hangs atomic.Int32
+
+// lateMutate changes the client's outgoing metadata map in place after the call was opened: a value of every
+// user key is overwritten (same backing array), a value is appended, a key is added. A real connection has
+// serialised the metadata by then; the wrapped handler must hold its own copy (cloneMD).
+func lateMutate(md metadata.MD) {
+	for k, v := range md {
+		if internalKeys[k] {
+			continue
+		}
+		if len(v) > 0 {
+			v[0] = "changed-after-open"
+		}
+		md[k] = append(v, "appended-after-open")
+	}
+	md["zz"] = []string{"added-after-open"}
+}
+
+type appKey struct{}
+
+// upstreamAddr: the peer of the request the caller is itself serving.
+type upstreamAddr struct{}
+
+func (upstreamAddr) Network() string { return "upstream" }
+func (upstreamAddr) String() string  { return "upstream-caller:1" }
 
 type shapeInfo struct {
 	method string
@@ -160,8 +185,16 @@ func runCase(cc grpc.ClientConnInterface, srv *scripted, c scase, measureLeak bo
 		base = runtime.NumGoroutine()
 	}
 
-	outMD := toMD(parseMD(c.Out))
-	outMD.Set("script-id", id)
+	anon := c.Out == "~"
+	var outMD metadata.MD
+	if anon {
+		// no outgoing metadata at all: the script cannot be named over the wire
+		srv.anon.Store(cl)
+		defer srv.anon.Store(nil)
+	} else {
+		outMD = toMD(parseMD(c.Out))
+		outMD.Set("script-id", id)
+	}
 	cops := parseCli(c.Cli)
 	hasDeadline := false
 	for _, op := range cops {
@@ -169,7 +202,22 @@ func runCase(cc grpc.ClientConnInterface, srv *scripted, c scase, measureLeak bo
 			hasDeadline = true
 		}
 	}
+	// the caller's context: plain, or that of a handler serving a request of its own (incoming metadata,
+	// peer and application values), possibly with a far deadline
 	parent := context.Background()
+	kctx := parseCtx(c.Ctx)
+	if kctx.hasIn {
+		parent = metadata.NewIncomingContext(parent, toMD(kctx.in))
+	}
+	if kctx.values {
+		parent = peer.NewContext(parent, &peer.Peer{Addr: upstreamAddr{}})
+		parent = context.WithValue(parent, appKey{}, "upstream-value")
+	}
+	if kctx.deadline {
+		var cancelFar context.CancelFunc
+		parent, cancelFar = context.WithTimeout(parent, time.Hour)
+		defer cancelFar()
+	}
 	var ctx context.Context
 	var cancel context.CancelFunc
 	if hasDeadline {
@@ -178,7 +226,9 @@ func runCase(cc grpc.ClientConnInterface, srv *scripted, c scase, measureLeak bo
 		ctx, cancel = context.WithCancel(parent)
 	}
 	defer cancel()
-	ctx = metadata.NewOutgoingContext(ctx, outMD)
+	if !anon {
+		ctx = metadata.NewOutgoingContext(ctx, outMD)
+	}
 	ev := func(s string) { out.client = append(out.client, s) }
 	started := false
 
@@ -221,6 +271,10 @@ func runCase(cc grpc.ClientConnInterface, srv *scripted, c scase, measureLeak bo
 			ev("open:" + errEvent(err))
 		} else {
 			started = true
+			if !anon {
+				// the call is open: like any gRPC client may, the caller now changes its own metadata map
+				lateMutate(outMD)
+			}
 			closedSend := false
 			var reused proto.Message
 			nsent := 0
